@@ -346,3 +346,72 @@ func CorpusStaleBlockHash(o *drv.Out, variantALeads bool) {
 		fmt.Sprintf("after stage 2: A %s | replica 2 %s; first round with a live leader: +%d, committed after +%d rounds: %s", lockA, lock2, firstLive, rounds-1, c01.CommitsStr(s)))
 	r.End()
 }
+
+// CorpusLockedAtRootBoundary: round 0 runs with all four validators, the PRECOMMIT reaches only replica 1 (it locks), the
+// round fails and validator 0 crashes; from round 1 on delivery is synchronous and replicas 1, 2, 3 are all needed. The
+// first round with a live leader must commit: the leader has to accept the locked replica's ELECTION_VOTE, whose HighQc
+// is from root height 10 — `lrhu` (CommitteeData.LastRootHeightUpdated) is below it or EQUAL to it; both are legal.
+// A CheckHighQC that rejects the boundary drops that vote (and every PROPOSE carrying the lock): no leader ever reaches
+// +2/3 again (seeded change pending2-C15).
+func CorpusLockedAtRootBoundary(o *drv.Out, lrhu uint64) {
+	const A = 1
+	cfg := corpusCfg(1)
+	cfg.LastRootHeightUpdated = lrhu
+	r := c01.NewRun(o, fmt.Sprintf("corpus/locked-replica-at-equal-root-height/lrhu%d-root10", lrhu), cfg)
+	s := r.Sim()
+	all := others(s)
+	step := func(who []int) {
+		for _, i := range who {
+			if !c01.Committed(s, i) {
+				r.Phase(i)
+			}
+		}
+	}
+	deliver := func(f func(e *bftsim.Envelope) bool) {
+		for _, e := range s.Take(func(e *bftsim.Envelope) bool { return e.Kind != "ELECTION" && (f == nil || f(e)) }) {
+			r.Deliver(e)
+		}
+		s.DropAll()
+	}
+	for k := 0; k < 4; k++ { // ELECTION .. PROPOSE_VOTE of round 0
+		step(all)
+		deliver(nil)
+	}
+	step(all) // PRECOMMIT
+	deliver(func(e *bftsim.Envelope) bool { return e.To == A })
+	step(all) // PRECOMMIT_VOTE: A locks, the others interrupt
+	s.DropAll()
+	for _, i := range all {
+		for k := 0; s.Nodes[i].B.Phase != bft.Election && k < 12; k++ {
+			r.Phase(i)
+		}
+	}
+	s.DropAll()
+	lockA := s.State(A)
+	live := []int{1, 2, 3}
+	rounds, n, firstLive := 0, 0, -1
+	for ; n == 0 && rounds < 6; rounds++ {
+		round := s.Nodes[2].B.Round
+		if l := s.FallbackLeader(10, round); l != 0 && firstLive < 0 {
+			firstLive = rounds
+		}
+		for k := 0; k < 9 && honestCommits(s) == 0; k++ {
+			moved := false
+			for _, i := range live {
+				if b := s.Nodes[i].B; !c01.Committed(s, i) && !(b.Phase == bft.Election && b.Round > round) {
+					r.Phase(i)
+					moved = true
+				}
+			}
+			deliver(nil)
+			if !moved {
+				break
+			}
+		}
+		n = honestCommits(s)
+	}
+	verdict(o, r, "C15:no-commit-after-gst:lock-root-height-boundary",
+		fmt.Sprintf("a locked replica is needed for +2/3, LastRootHeightUpdated=%d, lock from root height 10", lrhu), n > 0 && rounds-1 == firstLive,
+		fmt.Sprintf("A after round 0: %s; first round with a live leader: +%d, committed after +%d rounds: %s", lockA, firstLive, rounds-1, c01.CommitsStr(s)))
+	r.End()
+}
